@@ -181,7 +181,9 @@ class Models(object):
         R('<u64 as ToString>::to_string', lambda ex, fr, c, a, st, pc: (('decstr', self.rd(st, a[0])), S.TRUE))
         R('String::as_bytes', lambda ex, fr, c, a, st, pc: (a[0], S.TRUE))
         # text only used for error messages: opaque
-        R('<str as ToString>::to_string|<String as Clone>::clone|fmt::format', lambda ex, fr, c, a, st, pc: (('string', 'opaque'), S.TRUE))
+        R('<str as ToString>::to_string', lambda ex, fr, c, a, st, pc: (('string', self._deepv(st, a[0])), S.TRUE))
+        R('<String as Clone>::clone', lambda ex, fr, c, a, st, pc: (self._deepv(st, a[0]), S.TRUE))
+        R('fmt::format', lambda ex, fr, c, a, st, pc: (('string', a[0]), S.TRUE))
         R('v5::new_v5', self.uuid_v5)
         R('Uuid::nil', lambda ex, fr, c, a, st, pc: (S.bv(0, 128), S.TRUE))
         R('Uuid::is_nil', lambda ex, fr, c, a, st, pc: (S.Eq(self._deep(st, a[0]), S.bv(0, 128)), S.TRUE))
@@ -189,7 +191,12 @@ class Models(object):
         R('<Uuid as PartialEq>::eq|<&Uuid as PartialEq>::eq', lambda ex, fr, c, a, st, pc: (S.Eq(self._deep(st, a[0]), self._deep(st, a[1])), S.TRUE))
         # --- formatting is opaque (the text is not the subject of any check that runs Display)
         opaque = lambda ex, fr, c, a, st, pc: (('fmt', 'opaque'), S.TRUE)
-        R('slice::join|Argument::new_display|Argument::new_debug|Arguments::new|Arguments::new_const|<Arc as ToString>::to_string|<OrderType as ToString>::to_string', opaque)
+        R('slice::join|<Arc as ToString>::to_string|<OrderType as ToString>::to_string', opaque)
+        # format!: an injective (structural) function of its arguments
+        R('Argument::new_display|Argument::new_debug|Argument::new_lower_hex', lambda ex, fr, c, a, st, pc: (('fmtarg', self._deepv(st, a[0])), S.TRUE))
+        R('Arguments::new|Arguments::new_const', lambda ex, fr, c, a, st, pc: (('fmtargs',) + tuple(self._deepv(st, x) for x in a), S.TRUE))
+        R('must_use', lambda ex, fr, c, a, st, pc: (a[0], S.TRUE))
+        self._register_serde()
         R('Formatter::write_fmt|Formatter::write_str', lambda ex, fr, c, a, st, pc: (enum_const(0, (UNIT,)), S.TRUE))
 
     def _register_more(self):
@@ -347,6 +354,63 @@ class Models(object):
             self.wr(st, a[0], S.Ite(ok, a[2], old))
             return EnumV(S.Ite(ok, b64(0), b64(1)), {0: (old,), 1: (old,)}), st, S.TRUE
         R('Atomic::compare_exchange|Atomic::compare_exchange_weak', at_cas)
+
+    def _deepv(self, st, v):
+        """value with every reference followed (for structural recording)"""
+        v = self._deep(st, v)
+        if isinstance(v, tuple):
+            return tuple(self._deepv(st, x) for x in v)
+        return v
+
+    def _register_serde(self):
+        """recording serializer + abstract digest: serde_json::to_vec and SHA-256 are injective functions of what the
+        real Serialize impls hand over (DESIGN.md 2.3)"""
+        R = self.reg
+
+        def ser_struct(ex, fr, c, a, st, pc):
+            return enum_const(0, (('recstate', self._deepv(st, a[1]), ()),)), S.TRUE
+        R('<S as Serializer>::serialize_struct|<__S as Serializer>::serialize_struct', ser_struct)
+
+        def ser_field(ex, fr, c, a, st, pc):
+            stt = self.rd(st, a[0])
+            val = self._deepv(st, a[2])
+            self.wr(st, a[0], ('recstate', stt[1], stt[2] + ((self._deepv(st, a[1]), val),)))
+            return enum_const(0, (UNIT,)), S.TRUE
+        R('<SerializeStruct as SerializeStruct>::serialize_field', ser_field)
+        R('<SerializeStruct as SerializeStruct>::end', lambda ex, fr, c, a, st, pc:
+          (enum_const(0, (('record', a[0][1], a[0][2]),)), S.TRUE))
+
+        def to_vec(ex, fr, c, a, st, pc):
+            m = re.search(r'to_vec::<(.*)>$', c.strip())
+            ty = M._type_head(m.group(1)) if m else None
+            fn = ex.resolve('<%s as Serialize>::serialize' % ty)
+            if fn is None:
+                raise Unsupported('serde_json::to_vec of %r: no Serialize impl in the crate' % ty)
+            r, st2, l = ex.call_fn(fn, [a[0], ('recorder',)], st, pc)
+            if st2 is None:
+                return None, None, S.FALSE
+            ok = r.payloads.get(0, UNDEF)
+            return EnumV(r.tag, {0: (('jsonbytes', ok[0] if ok is not UNDEF else UNDEF),), 1: r.payloads.get(1, (('sererr',),))}), st2, l
+        R('to_vec', to_vec)
+
+        def map_err(ex, fr, c, a, st, pc):
+            r = a[0]
+            if S.is_const(r.tag) and S.cval(r.tag) == 0:
+                return r, S.TRUE
+            raise Unsupported('Result::map_err on a possibly failing result')
+        R('Result::map_err', map_err)
+        R('<CoreWrapper as Digest>::new', lambda ex, fr, c, a, st, pc: (('sha256', ()), S.TRUE))
+
+        def sha_update(ex, fr, c, a, st, pc):
+            hh = self.rd(st, a[0])
+            self.wr(st, a[0], ('sha256', hh[1] + (self._deepv(st, a[1]),)))
+            return UNIT, S.TRUE
+        R('<CoreWrapper as Digest>::update', sha_update)
+        R('<CoreWrapper as Digest>::finalize', lambda ex, fr, c, a, st, pc: (('digest', a[0][1]), S.TRUE))
+        R('<String as PartialEq>::ne|<str as PartialEq>::ne', lambda ex, fr, c, a, st, pc:
+          (S.Not(veq(self._deepv(st, a[0]), self._deepv(st, a[1]))), S.TRUE))
+        R('<String as PartialEq>::eq|<str as PartialEq>::eq', lambda ex, fr, c, a, st, pc:
+          (veq(self._deepv(st, a[0]), self._deepv(st, a[1])), S.TRUE))
 
     def _deep(self, st, v):
         while isinstance(v, RefV):
